@@ -41,7 +41,8 @@ theorem cz_haveEncoding_iff (hs : Headers) (tok : Bytes) (hl : lowerBytes tok = 
   rw [Bool.or_eq_true, cz_haveEncodingIn_iff _ _ _ hl, cz_haveEncodingIn_iff _ _ _ hl]
 
 theorem cz_parseResponse_coding {m : Method} {mh cap : Nat} {t : Transport} {resp : Resp}
-    (h : parseResponse m mh cap t = .ok resp) : resp.coding = selectCoding m resp.rawHeaders := by
+    (h : parseResponse m mh cap t = .ok resp) :
+    resp.coding = codingFor (bodyless m resp.status) m resp.rawHeaders := by
   unfold parseResponse at h
   simp only at h
   split at h
@@ -58,7 +59,7 @@ theorem cz_head_coding (h : HeadS) (hh : h.WF Consts.maxLineLen) (rest : List It
     (hmh : h.fields.length ≤ mh) (hms : h.fields.length ≤ Headers.maxSize)
     (hflat : flatT t = bytesI h.render ++ rest) {resp : Resp}
     (hp : parseResponse m mh cap t = .ok resp) :
-    resp.rawHeaders = h.seen ∧ resp.coding = selectCoding m h.seen := by
+    resp.rawHeaders = h.seen ∧ resp.coding = codingFor (bodyless m h.code) m h.seen := by
   obtain ⟨r1, h1, _, _⟩ := head_buf h hh rest t cap mh hwf hcap hmh hms hflat
   have h1' : parseResponseHead bufSrc { buf := [], cap := cap, inner := t } mh =
       (.ok (h.code, h.seen), r1) := h1
